@@ -654,7 +654,8 @@ pub fn generate(level: usize) -> Vec<Scenario> {
         // single class: the allocate-all trees carry the requesting class, so the slot really
         // reserves the tree (a tree of another class would only be stolen from)
         let single = ClassingSpec::custom("single[(0,1)]", &[(0, 1)], 0, crate::common::PolicyKind::Simple);
-        let cfg = Config::new(TREE_FRAMES, single.clone(), InitMode::AllocAll);
+        // two trees: with as many slots as trees the allocator does not use reservations
+        let cfg = Config::new(2 * TREE_FRAMES, single.clone(), InitMode::AllocAll);
         let c0 = 0u8;
         if TREE_HUGE >= 3 {
             let cursor_frame = HUGE_FRAMES + 6 * 64 + 3;
